@@ -306,6 +306,10 @@ def cases_C(tier):
         for f in (FITS[:4] if tier == "thorough" else FITS[1:2]):
             if crit != "bic":
                 out.append({"part": "C", "fit": f["name"], "profile": "crit:" + crit})
+    # one OBJECT fitted on a first meter and then on a second one selects, for the second, what a fresh object selects
+    pairs = [("plain", "noisy"), ("noisy", "weekend_regime"), ("both_regimes", "plain"), ("summer_regime", "noisy")]
+    for a, b in (pairs if tier == "thorough" else pairs[:3]):
+        out.append({"part": "C", "fit": b, "profile": "current", "first": a})
     return out
 
 
@@ -323,8 +327,21 @@ def run_C(case):
         settings = make_settings((1, 1, 1, 1), 0, "default", "default")
     if case["profile"].startswith("crit:"):
         settings = {"developer_mode": True, "silent_developer_mode": True, "split_selection": {"criteria": case["profile"][5:]}}
-    m = em.DailyModel(settings=settings).fit(em.DailyBaselineData(df, is_electricity_data=True), ignore_disqualification=True)
+    m = em.DailyModel(settings=settings)
+    if case.get("first"):
+        spec1 = next(f for f in FITS if f["name"] == case["first"])
+        df1 = ds.daily_frame(start="2021-01-01", days=spec1.get("days", 365), tz=spec1.get("zone", "America/Chicago"), climate="continental",
+                             wseed=7, **spec1["usage"])
+        m.fit(em.DailyBaselineData(df1, is_electricity_data=True), ignore_disqualification=True)
+    m.fit(em.DailyBaselineData(df, is_electricity_data=True), ignore_disqualification=True)
     viol = []
+    if case.get("first"):
+        fresh = em.DailyModel(settings=settings).fit(em.DailyBaselineData(df, is_electricity_data=True), ignore_disqualification=True)
+        if (m.best_combination, sorted(m.combinations)) != (fresh.best_combination, sorted(fresh.combinations)):
+            viol.append({"clause": "refitted_object_selects_unlike_fresh_object", "key": {"part": "selection"},
+                         "detail": f"object fitted on {case['first']!r} and then on {case['fit']!r} selects {m.best_combination} out of "
+                                   f"{len(m.combinations)} candidates; a fresh object fitted on {case['fit']!r} selects {fresh.best_combination} "
+                                   f"out of {len(fresh.combinations)}"})
     key = {"part": "selection", **({"criteria": case["profile"][5:]} if case["profile"].startswith("crit:") else {})}
     crit = [float(m._combination_selection_criteria(c)) for c in m.combinations]
     best = m.combinations[int(np.argmin(crit))]
